@@ -272,7 +272,8 @@ register("C01", lean_modules=['FsModel.PFlood', 'FsModel.Descent', 'FsModel.C01'
 register("C02", lean_modules=['FsModel.PFlood'], theorems=['Fs.pflood_parent'], gen=gen_resolved, oracles=[oracle.c02], sections={"elev"}, nontrivial=raised_or_rerouted, tags=tags_flow,
          rule="same scenario family as C01; oracle = independent Bellman minimax spill level; non-trivial = some node raised",
          trusted_base=FLOW_TB)
-register("C03", gen=lambda r, t: gen_any_ops(r, t, acc=True), oracles=[oracle.c03], sections={"acc", "acc_overloads_agree"},
+register("C03", lean_modules=["FsProofs.Properties.C03"], theorems=["Fs.C03.accumulate_recurrence", "Fs.C03.sweep_recurrence", "Fs.C03.accStep_get", "Fs.C03.contrib_nonneg"],
+         gen=lambda r, t: gen_any_ops(r, t, acc=True), oracles=[oracle.c03], sections={"acc", "acc_overloads_agree"},
          nontrivial=has_pits_or_multi, tags=tags_flow,
          rule="routed graphs of all operator families x scalar/array sources (negative values included); exact-rational recurrence and conservation on the implementation's doubles; non-trivial = graph has a confluence or multiple receivers",
          trusted_base=FLOW_TB + ["accumulation theorems are over exact arithmetic (commutative ring); rounding is covered only by the bit-exact correspondence and the rational oracle with an error bound"])
@@ -575,9 +576,9 @@ _lvl("C01", "proof",
 _lvl("C02", "proof",
      "Theorem-backed: parent property of the flood (every raised node sits one increment above a closed neighbour, basis of f >= spill) on the executed model. The lower-bound and n-ulp upper-bound proofs (visit_lb, pflood_upper) exist for an instrumented copy of the flood and are listed in DESIGN.md as not yet tied to the executed definitions; the two-sided spill bound, f >= z and identity at base/masked nodes are checked on every run by an independent Bellman minimax oracle on the implementation's elevations for all six resolver variants.",
      "Lean 4 flood invariant + bit-exact correspondence + independent minimax-spill oracle")
-_lvl("C03", "translation_validation",
-     "The accumulation sweep is modelled in Lean (Fs.Flow.accumulate) and compared bit for bit with all four C++ overloads; an exact-rational oracle checks the recurrence and conservation on the implementation's doubles. The conservation theorem (FsProofs.Acc.step_conserves) is about a separate formulation and is not yet tied to the executed definition, so no proof is claimed.",
-     "bit-exact differential correspondence with the Lean model + exact-rational recurrence/conservation oracle")
+_lvl("C03", "proof",
+     "Theorems about the executed definitions Fs.Flow.accStep/accumulate instantiated over an arbitrary field: accStep_get (one node of the sweep adds source*area to its own entry and value*weight to each proper receiver slot), sweep_recurrence / accumulate_recurrence (for every graph and every sweep order - no node after one of its proper receivers, which C06 provides - every entry equals source*area plus the accumulated values of its donors weighted by their partition fractions; any graph size, single or multiple receivers), contrib_nonneg. The Float instance of the same definitions is compared bit for bit with all four C++ overloads; conservation over terminal nodes is checked by the exact-rational oracle (its proof from the recurrence needs the weight-sum property of C05 and is not yet written).",
+     "Lean 4 induction over the sweep (Mathlib List.sum) on the executed definitions + bit-exact correspondence + exact-rational recurrence/conservation oracle")
 _lvl("C04", "proof",
      "route_spec (all neighbour lists, all elevations over any strict weak order): the router scan keeps the node iff no unmasked neighbour is strictly lower, else returns an unmasked strictly lower neighbour of maximal slope with its distance. Base/masked rows, weights and the parallel variant are model definitions tied by correspondence; oracle recomputes slopes on the implementation's output.",
      "Lean 4 fold-invariant proof of the router scan + bit-exact correspondence + slope oracle")
@@ -1252,7 +1253,7 @@ def c10_runner(P, exe, model_ok, rng, tier, replay=None):
 
 register("C10", gen=gen_parallel, runner=c10_runner, oracles=[oracle.c10], watchdog=30,
          nontrivial=lambda si: sum(1 for c in si.calls if c.cmd == "graph") >= 2 and any(c.cmd == "kernel" and int(c.toks[2]) > 1 and "kernel" in c.O for c in si.calls),
-         tags=par_tags, sections={"update", "elev", "acc", "acc_overloads_agree", "basins", "outlets", "pits", "kernel", "graph"} | GRAPH_SECTIONS,
+         tags=par_tags, sections={"update", "elev", "acc", "acc_overloads_agree", "basins", "outlets", "pits", "kernel", "kvisits", "graph"} | GRAPH_SECTIONS,
          rule="cached raster, cache-less raster, profile and mesh grids; operator families with a single router (plain, flooded, spanning-tree resolved, followed by a multi router); every scenario runs the same 1-3 updates (+ accumulate, basins, kernels) first with sequential routers, then with 2..16 threads; kernels applied sequentially and with thread counts 2..16 x minimum block sizes x minimum level sizes in breadth-first / any / depth-first order; everything under ASan and again under the thread sanitizer; non-trivial = both graphs ran and a multi-threaded kernel returned",
          lean_modules=["FsProofs.Properties.C10"],
          theorems=["Fs.C10.par_rows_eq_seq", "Fs.C10.par_tables_eq_seq", "Fs.C10.source_nocache_per_thread", "Fs.Commute.schedules_agree", "Fs.C11.index_in_unique_block", "Fs.C11.no_stuck_state"],
